@@ -109,8 +109,8 @@ def run(ctx, idx):
     sort_m = [n for n in own_nodes(fi.node) if isinstance(n, ast.Call) and isinstance(n.func, ast.Attribute) and n.func.attr in ("sort", "reverse")]
     ctx.ob("C17.d", con, d.module.rel, header[0].lineno, ok and not reorder and not sort_m, "header and columns both walk `%s` in order" % hs if ok and not reorder and not sort_m else
            "the header walks `%s` but the columns walk `%s`%s: names and data columns can be mismatched" % (hs, cs, " and a reordering call is present" if reorder or sort_m else ""))
-    wrow = [n for n in own_nodes(fi.node) if isinstance(n, ast.Call) and isinstance(n.func, ast.Attribute) and n.func.attr == "writerow"]
-    ok = bool(wrow) and any(wrow[0].args and wrow[0].args[0] is hh for hh in header)
+    wrow = sorted([n for n in own_nodes(fi.node) if isinstance(n, ast.Call) and isinstance(n.func, ast.Attribute) and n.func.attr == "writerow"], key=lambda n: n.lineno)
+    ok = bool(wrow) and any(wrow[0].args and (wrow[0].args[0] is hh or (isinstance(wrow[0].args[0], ast.Name) and K.expand(fi, wrow[0].args[0]) is not None and K.src(K.expand(fi, wrow[0].args[0])) == K.src(hh))) for hh in header)
     ctx.ob("C17.d", "%s.execute::header-written" % d.key, d.module.rel, wrow[0].lineno if wrow else fi.node.lineno, ok, "the header row is the result names" if ok else "the header row is not the list of result names")
     lossy = []
     for n in own_nodes(fi.node):
@@ -127,6 +127,12 @@ def run(ctx, idx):
             lossy.append((n, "% formatting"))
     con = "%s.execute::lossless" % d.key
     wrows = [n for n in own_nodes(fi.node) if isinstance(n, ast.Call) and isinstance(n.func, ast.Attribute) and n.func.attr == "writerows"]
+    if not wrows:
+        # one writerow per cell row inside a loop over the rows of the transposed stack
+        for lp in [n for n in own_nodes(fi.node) if isinstance(n, ast.For)]:
+            inner = [c for c in ast.walk(lp) if isinstance(c, ast.Call) and isinstance(c.func, ast.Attribute) and c.func.attr == "writerow"]
+            if inner and ("shape[0]" in K.src(lp.iter) or "out_arr" in K.src(lp.iter) or "range(" in K.src(lp.iter)):
+                wrows = inner
     if lossy:
         ctx.violate("C17.e", con, d.module.rel, lossy[0][0].lineno, "`%s` (%s) sits between the result arrays and the file: written values are no longer the computed doubles" % (K.src(lossy[0][0])[:60], lossy[0][1]))
     elif not wrows:
